@@ -142,6 +142,7 @@ VerdictKinds(t) ==
              /\ Len(oNP.v) = oNP.n) THEN "REJECT KindsLength" ELSE
         IF ~(oNP.v = oN.v \o oP.v /\ oDef.v = oNP.v) THEN "REJECT KindsConcat" ELSE
         IF ~(oN.v = oN0.v /\ oP.v = oP0.v) THEN "REJECT KindsSame" ELSE
+        IF Len(t.kinds) >= 7 /\ (t.kinds[7].exc # "" \/ t.kinds[7].v # oNP.v) THEN "REJECT KindsSpelling" ELSE
         IF PDegreeAsBuilt(t.L) # PDegreeDeclared(t.L) THEN "ACCEPT drift=PCapDegree22" ELSE "ACCEPT"
 
 Verdict(t) ==
